@@ -78,6 +78,32 @@ func Generate(property, tier string, seed uint64) *Trace {
 			commits = r.Range(60, 250)
 		}
 	}
+	if property == "C12" && r.Chance(0.25) {
+		// an application that adds stores in later releases: some IAVL stores are mounted only from a later reopen on
+		late := 0
+		for i := range tr.Stores {
+			if !tr.Stores[i].Transient && late < 2 && r.Chance(0.5) {
+				tr.Stores[i].From = r.Range(1, 3)
+				late++
+			}
+		}
+		// at least one IAVL store from the start
+		all := true
+		for i := range tr.Stores {
+			if !tr.Stores[i].Transient && tr.Stores[i].From == 0 {
+				all = false
+			}
+		}
+		if all {
+			for i := range tr.Stores {
+				if !tr.Stores[i].Transient {
+					tr.Stores[i].From = 0
+					break
+				}
+			}
+		}
+		wReopen = 4
+	}
 	nKeys := r.Range(2, len(keyPool))
 	ctr := 0
 	if tr.Lazy {
